@@ -296,6 +296,16 @@ Theorem C12_adaptive_2d_bicubic_exact : forall (cp cq : list C) (ax bx ay by_ ep
   Cmult (cpint Rops cp ax bx) (cpint Rops cq ay by_).
 Proof. exact simpson_adaptive_2d_bicubic_exact. Qed.
 
+(* the 2-D form is the nest of two 1-D adaptive integrations: tolerance and depth reach BOTH levels unchanged (values and
+   integrand-call counts) *)
+Theorem C12_adaptive_2d_nest : forall (f : R -> R -> C) (ax bx ay by_ eps : R) d,
+  simpson_adaptive_2d Rops f ax bx ay by_ eps d =
+  simpson_adaptive Rops (fun x => simpson_adaptive Rops (fun y => f x y) ay by_ eps d) ax bx eps d /\
+  simpson_adaptive_2d_calls Rops f (fun _ _ => 1%nat) ax bx ay by_ eps d =
+  simpson_adaptive_calls Rops (fun x => simpson_adaptive Rops (fun y => f x y) ay by_ eps d)
+    (fun x => simpson_adaptive_calls Rops (fun y => f x y) (fun _ => 1%nat) ay by_ eps d) ax bx eps d.
+Proof. exact (fun f ax bx ay by_ eps d => conj (simpson_adaptive_2d_nest f ax bx ay by_ eps d) (simpson_adaptive_2d_calls_nest f ax bx ay by_ eps d)). Qed.
+
 (* the value returned when a panel is accepted is exact up to degree 5 (pins the Richardson constant 15) *)
 Theorem C12_adaptive_richardson_quintic : forall (cs : list C) (a b : R), a <= b -> (length cs <= 6)%nat ->
   richardson (cpeval Rops cs) a b = cpint Rops cs a b.
@@ -441,6 +451,7 @@ Print Assumptions C12_certified_rule_expi_exact.
 Print Assumptions C12_simpson2d_expi_bound.
 Print Assumptions C12_adaptive_cubic_exact.
 Print Assumptions C12_adaptive_2d_bicubic_exact.
+Print Assumptions C12_adaptive_2d_nest.
 Print Assumptions C12_adaptive_richardson_quintic.
 Print Assumptions C12_adaptive_accepted_error.
 Print Assumptions C12_adaptive_step.
